@@ -62,6 +62,10 @@ def gen_field(rng):
             d[k] = [rng.choice(STRS) for _ in range(rng.randint(0, 4))]
         elif k == 'rex':
             d[k] = [rng.choice(STRS[-6:] + ['^[a-z]+$', '^\\d{4}\\-\\d{2}$', '^.*$']) for _ in range(rng.randint(1, 3))]
+    if rng.random() < 0.5:
+        items = list(d.items())
+        rng.shuffle(items)      # hand-written files list the kinds in any order
+        d = dict(items)
     if ftype == 'date' and 'type' in d and d['type'] != 'date' and any(k in d for k in ('min', 'max')):
         d['type'] = 'date'
     if any(isinstance(d.get(k), str) and d.get(k) in DATES or
@@ -396,6 +400,14 @@ class C09(core.Prop):
                     b = {n: dict(x) for n, x in v2.fields.items()}
                     if a != b:
                         fail('verdicts-differ', 'verdicts before and after the round trip differ')
+                    if 'set' in case:
+                        # the dictionary as written by hand (any key order) against the re-serialised file
+                        with quiet(), contextlib.redirect_stdout(io.StringIO()):
+                            v0 = verify_df(cx.to_df(fr), copy.deepcopy(case['set']), repair=False)
+                        c = {n: dict(x) for n, x in v0.fields.items()}
+                        if c != b:
+                            fail('verdicts-differ', 'the in-memory dictionary and the re-serialised file give different verdicts',
+                                 'verdicts-differ:dict-vs-file')
                 except Exception:
                     pass   # verification errors are C01/C02's business
             # unknown kinds and # keys are ignored
